@@ -175,7 +175,7 @@ class ParseErrorCodes(argparse.Action):
     def unparse(values: set[int]) -> str:
         if not values:
             return "*"
-        return ",".join([f"0x{v:02x}" for v in values])
+        return ",".join([f"-0x{-v:02x}" if v < 0 else f"0x{v:02x}" for v in values])
 
 
 class ParseArrayLengths(argparse.Action):
